@@ -88,7 +88,9 @@ def sweep(pid, mod, verbose=True):
                 res["details"].append({"benign": name, "result": "silent"})
             else:
                 res["noisy"].append(name)
-                last = [ln for ln in out.splitlines() if "VIOLATION" in ln or "ANALYSIS-ERROR" in ln]
+                # quoted lines of the variant run are defused so that a self-test message can never be read as a verdict on /repo
+                last = [ln.replace("VIOLATION property=", "variant-violation:").replace("ANALYSIS-ERROR property=", "variant-analysis-error:")
+                        for ln in out.splitlines() if "VIOLATION" in ln or "ANALYSIS-ERROR" in ln]
                 res["details"].append({"benign": name, "result": f"fired (exit {code})", "output": last[:3]})
                 if verbose:
                     print(f"NOISY-RULE property={pid} benign variant `{name}`: exit {code} {last[:2]}")
